@@ -213,50 +213,294 @@ LEDT = 'cflib.crazyflie.mem.led_timings_driver_memory'
 LED_CLAUSE = ('8-bit colours map monotonically onto RGB565 with black to 0 and white to full scale at full intensity')
 
 
-def _rgb565_ensures(c, tag, w, r, g, b, it=None):
-    """post-conditions on one 16-bit RGB565 word `w` (spec expression) for the 8-bit levels r, g, b (spec expressions)"""
-    c.snapshot('R' + tag, '(%s) >> 11' % w)
-    c.snapshot('G' + tag, '((%s) >> 5) & 63' % w)
-    c.snapshot('B' + tag, '(%s) & 31' % w)
-    full = '' if it is None else ' and %s == 100' % it
-    for ch, lvl, top, bits in (('R', r, 31, 5), ('G', g, 63, 6), ('B', b, 31, 5)):
-        f = ch + tag
-        c.ensure('%s-black-is-0' % f, 'implies(%s == 0, %s == 0)' % (lvl, f))
-        c.ensure('%s-fits-%d-bits' % (f, bits), '0 <= %s <= %d' % (f, top))
-        c.ensure('%s-white-is-full-scale-at-full-intensity' % f, 'implies(%s == 255%s, %s == %d)' % (lvl, full, f, top))
-        c.ensure('%s-nearest-level-at-full-intensity' % f, 'implies(%s, 2 * abs(%s * 255 - %s * %d) <= 255)' % (
-            'True' if it is None else '%s == 100' % it, f, lvl, top))
+LED_FUNCS = [LED + ':LEDDriverMemory.__init__', LED + ':LEDDriverMemory.write_data', LED + ':LED.__init__', LED + ':LED.set']
+CHANNELS = {'R': (0, 11, 31), 'G': (1, 5, 63), 'B': (2, 0, 31)}        # argument position of LED.set, shift, full scale
 
 
-@contract('C13', 'led.write_data', [LED + ':LEDDriverMemory.__init__', LED + ':LEDDriverMemory.write_data', LED + ':LED.__init__', LED + ':LED.set'],
-          clause=LED_CLAUSE + ' (all 12 LEDs, all 256 levels per channel, all intensities 0..100; exactly one write of 24 bytes at '
-                              'address 0: big-endian RRRRRGGG GGGBBBBB per LED; monotone in the level and in the intensity)', float_mode='R')
-def led_write(c):
-    mh = c.ext('mh')
-    mem = c.new(LED + ':LEDDriverMemory', 4, 0x10, 24, mh)
-    c.let('mem', mem)
-    for i in range(12):
-        led = c.snapshot('led%d' % i, 'mem.leds[%d]' % i)
-        c.call((led, 'set'), c.int('r%d' % i, 0, 255), c.int('g%d' % i, 0, 255), c.int('b%d' % i, 0, 255))
-        c.set(led, 'intensity', c.int('it%d' % i, 0, 100))
-    c.reset_trace()
-    c.call((mem, 'write_data'), c.ext('cb'))
+def _led_written(c, mem):
+    """shared post-conditions of LEDDriverMemory.write_data; afterwards `data` is the buffer handed to the memory handler"""
     c.ensure('no-exception', 'raised is None')
     if c.get('raised') is not None:
-        return
+        return False
     c.ensure('exactly-one-write', "len(trace) == 1 and len(sent('mh.write')) == 1")
     c.snapshot('w', "sent('mh.write')[0]")
     c.ensure('write-of-this-memory-at-address-0-flushing-the-queue',
              "len(w[1]) == 3 and is_same(w[1][0], mem) and w[1][1] == 0 and len(w[2]) == 1 and w[2]['flush_queue'] is True")
     c.snapshot('data', 'w[1][2]')
     c.ensure('24-bytes', "typename(data) == 'bytearray' and len(data) == 24")
+    return True
+
+
+def _led_channel(ch):
+    pos, shift, top = CHANNELS[ch]
+
+    @contract('C13', 'led.write_data.' + ch, LED_FUNCS,
+              clause=LED_CLAUSE + ' (channel %s: all 256 levels and all intensities 0..100 on the first and on the last LED of the ring; '
+                                  'big-endian RRRRRGGG GGGBBBBB word per LED; monotone in the level and in the intensity; the other '
+                                  'channels and LEDs are black and stay 0)' % ch,
+              bounded='LEDs 0 and 11 of 12 carry symbolic values, one colour channel per contract (the channels occupy disjoint bit '
+                      'fields; every position with all channels: led.write_data.palette)', max_paths=50)
+    def k(c):
+        if c.backend == 'sym':
+            c.I.cfg['int_float_small_by_solver'] = True
+        mh = c.ext('mh')
+        mem = c.new(LED + ':LEDDriverMemory', 4, 0x10, 24, mh)
+        c.let('mem', mem)
+        for tag, i in (('0', 0), ('1', 11)):
+            led = c.snapshot('led' + tag, 'mem.leds[%d]' % i)
+            rgb = [0, 0, 0]
+            rgb[pos] = c.int('x' + tag, 0, 255)
+            c.call((led, 'set'), *rgb)
+            c.set(led, 'intensity', c.int('it' + tag, 0, 100))
+        c.reset_trace()
+        c.call((mem, 'write_data'), c.ext('cb'))
+        if not _led_written(c, mem):
+            return
+        c.ensure('other-leds-black', 'all(data[i] == 0 for i in range(2, 22))')
+        for tag, i in (('0', 0), ('1', 11)):
+            c.snapshot('word' + tag, 'data[%d] * 256 + data[%d]' % (2 * i, 2 * i + 1))
+            X = c.snapshot('X' + tag, 'word%s >> %d' % (tag, shift)) if False else None
+            c.snapshot('X' + tag, '(word%s >> %d) & %d' % (tag, shift, top))
+            c.ensure('led%s-other-channels-stay-0' % tag, 'word%s == X%s << %d' % (tag, tag, shift))
+            c.ensure('led%s-black-is-0' % tag, 'implies(x%s == 0, X%s == 0)' % (tag, tag))
+            c.ensure('led%s-intensity-0-is-0' % tag, 'implies(it%s == 0, X%s == 0)' % (tag, tag))
+            c.ensure('led%s-white-is-full-scale-at-full-intensity' % tag, 'implies(x%s == 255 and it%s == 100, X%s == %d)' % (tag, tag, tag, top))
+            c.ensure('led%s-nearest-level-at-full-intensity' % tag, 'implies(it%s == 100, 2 * abs(X%s * 255 - x%s * %d) <= 255)' % (tag, tag, tag, top))
+        for a, b in (('0', '1'), ('1', '0')):
+            c.ensure('monotone-in-level-%s-%s' % (a, b), 'implies(it%s == it%s and x%s <= x%s, X%s <= X%s)' % (a, b, a, b, a, b))
+            c.ensure('monotone-in-intensity-%s-%s' % (a, b), 'implies(x%s == x%s and it%s <= it%s, X%s <= X%s)' % (a, b, a, b, a, b))
+    return k
+
+
+for _ch in 'RGB':
+    _led_channel(_ch)
+
+
+@contract('C13', 'led.write_data.palette', LED_FUNCS,
+          clause=LED_CLAUSE + ' (every one of the 12 positions with saturated colours - white, black, red, green, blue, yellow - at '
+                              'intensities 100, 50, 0, 1, 99: the exact 24 bytes; full scale is 31/63/31, scaled down by intensity/100 rounded down)',
+          bounded='concrete colours and intensities (the symbolic levels are in led.write_data.R/G/B)')
+def led_palette(c):
+    mh = c.ext('mh')
+    mem = c.new(LED + ':LEDDriverMemory', 4, 0x10, 24, mh)
+    c.let('mem', mem)
+    palette = [(255, 255, 255), (0, 0, 0), (255, 0, 0), (0, 255, 0), (0, 0, 255), (255, 255, 0)]
+    intens = [100, 50, 0, 1, 99]
+    expected = bytearray()
     for i in range(12):
-        _rgb565_ensures(c, str(i), 'data[%d] * 256 + data[%d]' % (2 * i, 2 * i + 1), 'r%d' % i, 'g%d' % i, 'b%d' % i, 'it%d' % i)
-    for i in range(12):
-        j = (i + 1) % 12
-        for ch, lvl in (('R', 'r'), ('G', 'g'), ('B', 'b')):
-            for a, b in ((i, j), (j, i)):
-                c.ensure('%s-monotone-in-level-led%d-vs-led%d' % (ch, a, b),
-                         'implies(it%d == it%d and %s%d <= %s%d, %s%d <= %s%d)' % (a, b, lvl, a, lvl, b, ch, a, ch, b))
-                c.ensure('%s-monotone-in-intensity-led%d-vs-led%d' % (ch, a, b),
-                         'implies(%s%d == %s%d and it%d <= it%d, %s%d <= %s%d)' % (lvl, a, lvl, b, a, b, ch, a, ch, b))
+        r, g, b = palette[i % 6]
+        it = intens[i % 5]
+        led = c.snapshot('led%d' % i, 'mem.leds[%d]' % i)
+        c.call((led, 'set'), r, g, b)
+        c.set(led, 'intensity', it)
+        word = ((31 * it // 100 if r else 0) << 11) | ((63 * it // 100 if g else 0) << 5) | (31 * it // 100 if b else 0)
+        expected += bytes((word >> 8, word & 0xFF))
+    c.let('EXPECTED', bytes(expected))
+    c.reset_trace()
+    c.call((mem, 'write_data'), c.ext('cb'))
+    if _led_written(c, mem):
+        c.ensure('exact-bytes', 'bytes(data) == EXPECTED')
+
+
+def _led_timings(n):
+    @contract('C13', 'led.timings.write_data.%d' % n, [LEDT + ':LEDTimingsDriverMemory.__init__', LEDT + ':LEDTimingsDriverMemory.add',
+                                                       LEDT + ':LEDTimingsDriverMemory.write_data'],
+              clause=LED_CLAUSE + ' (LED timing sequence of %d entr%s: per kept entry <time, RGB565 high, RGB565 low, leds | fade << 4 | '
+                                  'rotate << 5>, all 256 levels per channel; an entry whose four bytes are all zero is left out because it '
+                                  'would read as the terminator; four zero bytes terminate)' % (n, 'y' if n == 1 else 'ies'),
+              bounded='sequences of 0, 1 and 2 entries')
+    def k(c):
+        mh = c.ext('mh')
+        mem = c.new(LEDT + ':LEDTimingsDriverMemory', 5, 0x17, 2000, mh)
+        c.let('mem', mem)
+        for i in range(n):
+            rgb = c.dict([('r', c.int('r%d' % i, 0, 255)), ('g', c.int('g%d' % i, 0, 255)), ('b', c.int('b%d' % i, 0, 255))])
+            c.call((mem, 'add'), c.int('t%d' % i, 0, 255), rgb, c.int('leds%d' % i, 0, 15), c.bool('fade%d' % i), c.int('rot%d' % i, 0, 7))
+        c.reset_trace()
+        c.call((mem, 'write_data'), c.ext('cb'))
+        c.ensure('no-exception', 'raised is None')
+        if c.get('raised') is not None:
+            return
+        c.ensure('exactly-one-write', "len(trace) == 1 and len(sent('mh.write')) == 1")
+        c.snapshot('w', "sent('mh.write')[0]")
+        c.ensure('write-of-this-memory-at-address-0-flushing-the-queue',
+                 "len(w[1]) == 3 and is_same(w[1][0], mem) and w[1][1] == 0 and len(w[2]) == 1 and w[2]['flush_queue'] is True")
+        c.snapshot('data', 'w[1][2]')
+        nbytes = c.concretize('len(data)')
+        c.ensure('whole-entries', "typename(data) == 'bytearray' and len(data) %% 4 == 0 and 4 <= len(data) <= %d" % (4 * n + 4))
+        kept = nbytes // 4 - 1
+        c.ensure('terminator', 'bytes(data[%d:]) == bytes(4)' % (4 * kept))
+
+        def zero(i):        # the entry's four bytes would all be zero: nothing to show, and the nearest RGB565 level of each channel is 0
+            return ('(t%d == 0 and leds%d == 0 and not fade%d and rot%d == 0 and 2 * r%d * 31 <= 255 and 2 * g%d * 63 <= 255 '
+                    'and 2 * b%d * 31 <= 255)' % ((i,) * 7))
+
+        def slot(s, i):     # slot s of the output holds entry i
+            o = 4 * s
+            wd = '(data[%d] * 256 + data[%d])' % (o + 1, o + 2)
+            R, G, B = '(%s >> 11)' % wd, '((%s >> 5) & 63)' % wd, '(%s & 31)' % wd
+            return ('(data[%d] == t%d and data[%d] == leds%d + 16 * fade%d + 32 * rot%d and 2 * abs(%s * 255 - r%d * 31) <= 255 and '
+                    '2 * abs(%s * 255 - g%d * 63) <= 255 and 2 * abs(%s * 255 - b%d * 31) <= 255 and '
+                    'implies(r%d == 0, %s == 0) and implies(g%d == 0, %s == 0) and implies(b%d == 0, %s == 0) and '
+                    'implies(r%d == 255, %s == 31) and implies(g%d == 255, %s == 63) and implies(b%d == 255, %s == 31))' % (
+                        o, i, o + 3, i, i, i, R, i, G, i, B, i, i, R, i, G, i, B, i, R, i, G, i, B))
+        if n == 1:
+            c.ensure('kept-iff-not-all-zero', '%s == %s' % (kept == 0, zero(0)))
+            if kept == 1:
+                c.ensure('entry-0', slot(0, 0))
+        if n == 2:
+            if kept == 0:
+                c.ensure('both-all-zero', '%s and %s' % (zero(0), zero(1)))
+            elif kept == 1:
+                c.ensure('one-all-zero-the-other-kept', '(%s and not %s and %s) or (not %s and %s and %s)' % (
+                    zero(0), zero(1), slot(0, 1), zero(0), zero(1), slot(0, 0)))
+            else:
+                c.ensure('none-all-zero', 'not %s and not %s' % (zero(0), zero(1)))
+                c.ensure('entries-in-order', '%s and %s' % (slot(0, 0), slot(1, 1)))
+                for ch, sh, m in (('r', 11, 31), ('g', 5, 63), ('b', 0, 31)):
+                    for a, b in ((0, 1), (1, 0)):
+                        c.ensure('%s-monotone-%d-%d' % (ch, a, b), 'implies(%s%d <= %s%d, (((data[%d] * 256 + data[%d]) >> %d) & %d) <= '
+                                 '(((data[%d] * 256 + data[%d]) >> %d) & %d))' % (ch, a, ch, b, 4 * a + 1, 4 * a + 2, sh, m, 4 * b + 1, 4 * b + 2, sh, m))
+    return k
+
+
+for _n in (0, 1, 2):
+    _led_timings(_n)
+
+
+# ------------------------------------------------------------------------- (d) received range reports and lighthouse angle streams
+LOC = 'cflib.crazyflie.localization'
+LOC_FUNCS = [LOC + ':Localization.__init__', LOC + ':Localization._incoming', 'cflib.utils.callbacks:Caller.add_callback',
+             'cflib.utils.callbacks:Caller.call', 'cflib.crtp.crtpstack:CRTPPacket.__init__']
+LOC_HEADER = (6 << 4) | (3 << 2) | 1        # localization port, generic channel
+
+
+def _localization(c, payload_expr):
+    """a Localization object (real constructor) with one subscriber `cb`, and a received packet with the given payload"""
+    loc = c.new(LOC + ':Localization', c.ext('cf'))
+    c.call((c.getfield(loc, 'receivedLocationPacket'), 'add_callback'), c.ext('cb'))
+    pk = c.new('cflib.crtp.crtpstack:CRTPPacket', LOC_HEADER, c.snapshot('pkdata', payload_expr))
+    c.reset_trace()
+    return loc, pk
+
+
+def _delivered_once(c, pk_type):
+    c.ensure('no-exception', 'raised is None')
+    c.ensure('exactly-one-packet-delivered', "len(trace) == 1 and len(sent('cb')) == 1 and len(sent('cb')[0][1]) == 1")
+    if c.get('raised') is not None or len(c.get('trace')) != 1:
+        return False
+    c.snapshot('lp', "sent('cb')[0][1][0]")
+    c.ensure('type-and-raw-data', "typename(lp) == 'localizationPacket' and lp.type == %d and bytes(lp.raw_data) == bytes(payload)" % pk_type)
+    return True
+
+
+def _range_report(k):
+    @contract('C13', 'loc.range_report.%d' % k, LOC_FUNCS,
+              clause='received range reports decode to exactly the anchor distances the device encoded (%d anchor(s): <id, binary32 '
+                     'distance> each; any ids - a repeated id keeps the last distance, any distance bits incl. NaN, infinities, -0)' % k,
+              max_paths=400)
+    def f(c):
+        payload = c.bytes('payload', 5 * k)
+        loc, pk = _localization(c, "pack('<B', 0) + payload")
+        c.call((loc, '_incoming'), pk)
+        if not _delivered_once(c, 0):
+            return
+        n = c.concretize('len(lp.data)')
+        c.ensure('is-dict', "typename(lp.data) == 'dict'")
+        c.snapshot('ids', 'tuple(payload[5 * i] for i in range(%d))' % k)
+        c.snapshot('dist', "tuple(unpack('<f', payload[5 * i + 1:5 * i + 5])[0] for i in range(%d))" % k)
+        c.snapshot('keys', 'tuple(lp.data.keys())')
+        c.snapshot('vals', 'tuple(lp.data.values())')
+        c.ensure('every-anchor-id-is-a-key', 'all(any(keys[p] == ids[i] for p in range(%d)) for i in range(%d))' % (n, k))
+        for p in range(n):
+            c.ensure('entry-%d-is-the-last-report-of-its-anchor' % p,
+                     'any(keys[%d] == ids[i] and same_float(vals[%d], dist[i]) and all(ids[j] != ids[i] for j in range(i + 1, %d)) '
+                     'for i in range(%d))' % (p, p, k, k))
+    return f
+
+
+for _k in range(6):         # a CRTP packet carries at most 30 bytes: 1 + 5 * k <= 30
+    _range_report(_k)
+
+
+@contract('C13', 'loc.range_report.bad_length', LOC_FUNCS,
+          clause='a range report whose payload is not a whole number of <id, distance> records delivers nothing (and an empty packet is ignored)',
+          bounded='payload lengths 1, 2, 3, 4, 6, 9, 28, 29 and the empty packet')
+def range_bad_length(c):
+    n = c.choice('n', [-1, 1, 2, 3, 4, 6, 9, 28, 29])
+    payload = c.bytes('payload', max(n, 0))
+    loc, pk = _localization(c, "pack('<B', 0) + payload" if n >= 0 else 'payload')
+    c.call((loc, '_incoming'), pk)
+    c.ensure('no-exception', 'raised is None')
+    c.ensure('nothing-delivered', 'len(trace) == 0')
+
+
+def _fp16_by_contract(c):
+    """calls of fp16_to_float are replaced by its contract (fp16_to_float for 0..65535, fp16_to_float.signed for the negative
+    values that unpacking '<h' produces): the IEEE-754 binary16 value of the low 16 bits"""
+    if c.backend == 'sym':
+        from pyvc.ops import binop
+        fpv = c.get('fp16_value')
+        c.summary(ENC + ':fp16_to_float', lambda I, f, args, kwargs: fpv.fn(I, [binop(I, '%', args[0], 65536)], {}))
+        c.assume_note('cflib.utils.encoding:fp16_to_float replaced by its contract (proved in fp16_to_float / fp16_to_float.signed)')
+
+
+@contract('C13', 'fp16_to_float.signed', [ENC + ':fp16_to_float'],
+          clause='half-precision decoding of the bit patterns 0x8000..0xffff when they arrive as the negative numbers -32768..-1 that '
+                 "struct.unpack('<h') yields (this is how Localization._decode_lh_angle calls it)")
+def fp16_signed(c):
+    c.int('float16', -32768, -1)
+    c.call(ENC + ':fp16_to_float', c.get('float16'))
+    c.ensure('no-exception', 'raised is None')
+    c.ensure('is-float', 'isinstance(result, float)')
+    c.ensure('ieee-binary16-value-of-the-low-16-bits', 'same_float(result, fp16_value(float16 % 65536))')
+
+
+@contract('C13', 'loc.lh_angle_stream', LOC_FUNCS + [LOC + ':Localization._decode_lh_angle'],
+          clause='lighthouse angle-stream packets decode to exactly the per-sensor sweep angles the device encoded: base station, '
+                 'the binary32 base angle of sensor 0 and base - binary16(offset) for sensors 1..3, for both sweeps, for every base angle '
+                 'and every offset bit pattern (zero, negative zero, subnormals, infinities, NaN)')
+def lh_angle(c):
+    _fp16_by_contract(c)
+    payload = c.bytes('payload', 21)
+    loc, pk = _localization(c, "pack('<B', 10) + payload")
+    c.call((loc, '_incoming'), pk)
+    if not _delivered_once(c, 10):
+        return
+    c.snapshot('d', 'lp.data')
+    c.ensure('shape', "typename(d) == 'dict' and len(d) == 3 and typename(d['x']) == 'list' and typename(d['y']) == 'list' and "
+                      "len(d['x']) == 4 and len(d['y']) == 4")
+    c.ensure('basestation', "d['basestation'] == payload[0]")
+    for ax, o in (('x', 1), ('y', 11)):
+        c.snapshot('base_' + ax, "unpack('<f', payload[%d:%d])[0]" % (o, o + 4))
+        c.ensure('%s-sensor-0-is-the-base-angle' % ax, "same_float(d['%s'][0], base_%s)" % (ax, ax))
+        for s in range(3):
+            c.snapshot('off_%s%d' % (ax, s), "unpack('<H', payload[%d:%d])[0]" % (o + 4 + 2 * s, o + 6 + 2 * s))
+            c.ensure('%s-sensor-%d-is-base-minus-half-float-offset' % (ax, s + 1),
+                     "same_float(d['%s'][%d], base_%s - fp16_value(off_%s%d))" % (ax, s + 1, ax, ax, s))
+
+
+@contract('C13', 'loc.lh_angle_stream.bad_length', LOC_FUNCS + [LOC + ':Localization._decode_lh_angle'],
+          clause='an angle-stream packet of the wrong size is not decoded into angles: struct.error, nothing delivered',
+          bounded='payload lengths 0, 1, 20, 22, 29')
+def lh_angle_bad(c):
+    _fp16_by_contract(c)
+    n = c.choice('n', [0, 1, 20, 22, 29])
+    payload = c.bytes('payload', n)
+    loc, pk = _localization(c, "pack('<B', 10) + payload")
+    c.call((loc, '_incoming'), pk)
+    c.ensure('struct-error', "raised == 'struct.error'")
+    c.ensure('nothing-delivered', 'len(trace) == 0')
+
+
+# ------------------------------------------------------------------------- (a) quaternion compression (mode R)
+QUAT_PRE = 'all(-1000 <= v <= 1000 for v in q) and any(v >= 0.001 or v <= -0.001 for v in q)'
+
+
+@contract('C13', 'quat.compress.probe', [ENC + ':compress_quaternion'], clause='probe', float_mode='R')
+def quat_compress_probe(c):
+    q = c.floats('q', 4)
+    c.require(QUAT_PRE)
+    c.call(ENC + ':compress_quaternion', q)
+    c.ensure('no-exception', 'raised is None')
+    c.ensure('fits-32-bits', '0 <= result < 2 ** 32')
